@@ -322,7 +322,7 @@ pub fn report_violation(
     a: &RunArgs,
     i: u64,
     v: &Violation,
-) -> (PathBuf, bool) {
+) -> (PathBuf, bool, Violation) {
     let known = KnownFindings::load();
     let rs = rng::run_seed(a.seed, i);
     let sc = (def.generate)(&a.prop, rs, a.tier);
@@ -365,14 +365,14 @@ pub fn report_violation(
     // Confirm in a fresh process.
     let ok = replay_in_fresh_process(&min_path, &mv.invariant);
     if ok || is_crash {
-        (min_path, ok)
+        (min_path, ok, mv)
     } else {
         eprintln!("harness defect: minimised replay did not reproduce in a fresh process; reporting the unminimised scenario");
         let mut stats = Stats::default();
         let o = execute(def, &a.prop, &sc, &mut stats, &known, false);
         let p = write(&sc, false, v, o.digest, "-full");
         let ok2 = replay_in_fresh_process(&p, &v.invariant);
-        (p, ok2)
+        (p, ok2, v.clone())
     }
 }
 
@@ -484,8 +484,8 @@ pub fn run_main(def: &EngineDef, a: &RunArgs) -> ! {
 
     let mut violation_out = None;
     if let Some((i, v)) = &first {
-        let (path, confirmed) = report_violation(def, a, *i, v);
-        violation_out = Some((*i, v.clone(), path, confirmed));
+        let (path, confirmed, mv) = report_violation(def, a, *i, v);
+        violation_out = Some((*i, mv, path, confirmed));
     }
 
     let wall = start.elapsed().as_secs_f64();
@@ -537,7 +537,7 @@ pub fn run_main(def: &EngineDef, a: &RunArgs) -> ! {
 }
 
 /// Determinism self-test: every seed twice, in different processes, at two worker counts.
-pub fn selftest_determinism(def: &EngineDef, prop: &str, n: u64, seed: u64) -> bool {
+pub fn selftest_determinism(_def: &EngineDef, prop: &str, n: u64, seed: u64) -> bool {
     let mk = |w: u64| RunArgs {
         prop: prop.to_string(),
         tier: Tier::Quick,
